@@ -45,3 +45,8 @@ claim("C19", "exploration", E1,
       "Six presets x default and every single-field substitution over a per-type alphabet (thorough: all pairs): JSON round trip is a fixed point that keeps every field (Debug field list vs JSON keys), and chains built from the round-tripped settings are bit-identical. The trace-metadata clause (sampler_settings attribute) is checked with the Zarr backend under C14.",
       "Trusted: serde_json; non-finite floats are outside the quantifier; chains are compared on one 3-d Gaussian for 30 (NUTS) / 10 (MCLMC) draws with a 200k-evaluation watchdog.",
       "bounded-exhaustive enumeration of field substitutions, differential oracle on real chains", "4/C19")
+
+claim("C05", "fault_enumeration", E1,
+      "Every evaluation index k of a complete run (set_position + warmup + 4 draws) x 8 fault kinds, plus pairs of faults in a sliding window, for Diag/LowRank NUTS (Euclidean, ExactNormal), Flow NUTS and DiagMclmc (dynamic step size on/off): no panic, unrecoverable error returned by the call that evaluated, trajectory faults reported as divergences, returned position bit-identical to an earlier valid state with its own logp/gradient, finite step size and mass-matrix scales.",
+      "Trusted: 2-d Gaussian target; evaluation phases derived from the density's own log and Progress.num_steps; fixed ChaCha8 seed. One open known finding (fault at the step-size re-initialisation inside adapt).",
+      "exhaustive fault-position x fault-kind enumeration on the real chains (public API)", "4/C05")
